@@ -36,6 +36,27 @@ def is_uuid(id_str):
         return False
 
 
+def check_storable_text(value):
+    """
+    Text is kept in the file as variable-length UTF-8: it cannot hold NUL
+    characters or text that has no UTF-8 encoding (a lone surrogate). Raises
+    ValueError for such text, also inside a (nested) sequence; anything that
+    is not text passes.
+    """
+    if isinstance(value, str):
+        if "\x00" in value:
+            raise ValueError("Text with an embedded NUL character "
+                             "cannot be stored")
+        value.encode("utf-8")  # UnicodeEncodeError is a ValueError
+    elif isinstance(value, np.ndarray):
+        if value.dtype.kind in "OU":
+            for item in value.ravel():
+                check_storable_text(item)
+    elif isinstance(value, (list, tuple)):
+        for item in value:
+            check_storable_text(item)
+
+
 def check_entity_name_and_type(name, type_):
     check_entity_name(name)
     check_entity_type(type_)
@@ -44,6 +65,7 @@ def check_entity_name_and_type(name, type_):
 def check_entity_type(type_):
     if not type_:
         raise ValueError("String provided for entity type is empty!")
+    check_storable_text(type_)
 
 
 def check_entity_name(name):
@@ -51,6 +73,7 @@ def check_entity_name(name):
         raise ValueError("String provided for entity name is empty!")
     if not names.check(name):
         raise ValueError("String provided for entity name is invalid!")
+    check_storable_text(name)
 
 
 def check_entity_id(id_):
